@@ -839,37 +839,6 @@ Proof.
 Qed.
 
 (* ---- the read-only walks of flush ------------------------------------------------------------------------------ *)
-Lemma do_expose_S : forall f w, do_expose (S f) w = (c <- getw w ;; do_expose_kids f (w_first c)).
-Proof. reflexivity. Qed.
-Lemma do_expose_kids_S : forall f k,
-  do_expose_kids (S f) k =
-  match k with
-  | None => ret tt
-  | Some a => c <- getw a ;; (if w_visible c then do_expose f a else ret tt) ;;; c2 <- getw a ;; do_expose_kids f (w_next c2)
-  end.
-Proof. reflexivity. Qed.
-
-Lemma do_expose_ok : forall D f,
-  (forall w h, hinv D h -> findw h w <> None ->
-     match do_expose f w h with Ok _ h' => h' = h | Fault _ _ => False | NoFuel => True end) /\
-  (forall k h, hinv D h -> (forall a, k = Some a -> findw h a <> None) ->
-     match do_expose_kids f k h with Ok _ h' => h' = h | Fault _ _ => False | NoFuel => True end).
-Proof.
-  intros D. induction f as [|f [IH1 IH2]]; [split; intros; cbn; exact I|]. split.
-  - intros w h HI Hl. rewrite do_expose_S. destruct (live_some h w Hl) as [c Hw].
-    unfold bind. rewrite (getw_run h w c Hw). apply IH2; auto.
-    intros a Ea. destruct (hinv_first_live D h w c a HI Hw Ea) as [ca [Hfa _]]. congruence.
-  - intros k h HI Hl. rewrite do_expose_kids_S. destruct k as [a|]; [|cbn; reflexivity].
-    destruct (live_some h a (Hl a eq_refl)) as [c Ha].
-    unfold bind at 1. rewrite (getw_run h a c Ha). unfold bind at 1.
-    assert (H1 : match (if w_visible c then do_expose f a else ret tt) h with
-                 | Ok _ h' => h' = h | Fault _ _ => False | NoFuel => True end).
-    { destruct (w_visible c); [apply IH1; auto; congruence|cbn; reflexivity]. }
-    destruct ((if w_visible c then do_expose f a else ret tt) h) as [u h1| |]; [|contradiction|exact I].
-    subst h1. unfold bind at 1. rewrite (getw_run h a c Ha). apply IH2; auto.
-    intros n En. destruct (hinv_next_live D h a c n HI Ha En) as [cn [Hfn _]]. congruence.
-Qed.
-
 Lemma cell_visible_kids_ok : forall D f k prev h, hinv D h -> (forall a, k = Some a -> findw h a <> None) ->
   match cell_visible_kids f k prev h with Ok _ h' => h' = h | Fault _ _ => False | NoFuel => True end.
 Proof.
@@ -942,13 +911,14 @@ Proof.
   rewrite (setr_run h a c _ Hf Hr). reflexivity.
 Qed.
 
-Lemma window_flush_spec : forall fuel h,
+(* tickit_window_flush on the root, up to the redraw: the queued restacking requests *)
+Lemma flush_begin_spec : forall fuel h,
   hinv [] h -> findw h root <> None ->
-  hoare (fun h1 => h1 = h) (window_flush fuel root) (fun _ h' => hinv [] h' /\ stable h h').
+  hoare (fun h1 => h1 = h) (flush_begin fuel root) (fun _ h' => hinv [] h' /\ stable h h').
 Proof.
   intros fuel h HI Hl h0 E. subst h0. destruct (live_some h root Hl) as [cr Hr].
   assert (Hir : w_isroot cr = true) by (rewrite (hi_isroot [] h HI root cr Hr); apply Pos.eqb_refl).
-  unfold window_flush. unfold bind at 1. rewrite (getw_run h root cr Hr).
+  unfold flush_begin. unfold bind at 1. rewrite (getw_run h root cr Hr).
   rewrite (hi_root_parent [] h HI cr Hr).
   unfold bind at 1. rewrite (getr_run h root cr Hr Hir).
   destruct (r_later (rx h)); cbn [negb]; [|cbn; split; [exact HI|apply stable_refl]].
@@ -958,7 +928,6 @@ Proof.
   assert (Hr1 : findw h1 root = Some cr) by exact Hr.
   unfold bind at 1. rewrite (getr_run h1 root cr Hr1 Hir).
   unfold bind at 1.
-  (* the queue *)
   assert (Hq : match (match r_queue (rx h1) with
                       | Some _ => apply_queue fuel (r_queue (rx h1)) ;;; updr root (fun r => set_rqueue r None)
                       | None => ret tt end) h1 with
@@ -975,43 +944,23 @@ Proof.
     rewrite (updr_run h2 root cr2 _ Hr2 Hir2).
     split; [exact HI2|]. eapply stable_trans; [exact S2|]. apply same_wins_stable; reflexivity. }
   match goal with |- match match ?m h1 with _ => _ end with _ => _ end => destruct (m h1) as [u2 h2| |] end; [|contradiction|exact I].
-  destruct Hq as [HI2 S2].
-  assert (S02 : stable h h2) by (eapply stable_trans; eauto).
-  pose proof (stable_live h h2 root S02 Hl) as Hl2. destruct (live_some h2 root Hl2) as [cr2 Hr2].
-  assert (Hir2 : w_isroot cr2 = true) by (rewrite (hi_isroot [] h2 HI2 root cr2 Hr2); apply Pos.eqb_refl).
-  unfold bind at 1. rewrite (getr_run h2 root cr2 Hr2 Hir2).
-  unfold bind at 1.
-  (* the expose walk *)
-  assert (He : match (if r_expose (rx h2)
-                      then setr root (set_rexpose (rx h2) false) ;;; do_expose fuel root ;;; updr root (fun r => set_rrestore r true)
-                      else ret tt) h2 with
-               | Ok _ h3 => hinv [] h3 /\ stable h2 h3 | Fault _ _ => False | NoFuel => True end).
-  { destruct (r_expose (rx h2)); [|cbn; split; [exact HI2|apply stable_refl]].
-    unfold bind at 1. rewrite (setr_run h2 root cr2 _ Hr2 Hir2).
-    destruct (rx_flags_hinv [] h2 (set_rexpose (rx h2) false) HI2 eq_refl eq_refl) as [HI3 S3].
-    set (h3 := with_rx h2 (set_rexpose (rx h2) false)) in *.
-    assert (Hr3 : findw h3 root = Some cr2) by exact Hr2.
-    unfold bind at 1.
-    destruct (do_expose_ok [] fuel) as [Hde _].
-    assert (Hl3 : findw h3 root <> None) by congruence.
-    pose proof (Hde root h3 HI3 Hl3) as Hd.
-    destruct (do_expose fuel root h3) as [u h4| |]; [|contradiction|exact I]. subst h4.
-    rewrite (updr_run h3 root cr2 _ Hr3 Hir2).
-    destruct (rx_flags_hinv [] h3 (set_rrestore (rx h3) true) HI3 eq_refl eq_refl) as [HI4 S4].
-    split; [exact HI4|eapply stable_trans; eauto]. }
-  match goal with |- match match ?m h2 with _ => _ end with _ => _ end => destruct (m h2) as [u3 h3| |] end; [|contradiction|exact I].
-  destruct He as [HI3 S3].
-  assert (S03 : stable h h3) by (eapply stable_trans; eauto).
-  pose proof (stable_live h h3 root S03 Hl) as Hl3. destruct (live_some h3 root Hl3) as [cr3 Hr3].
+  destruct Hq as [HI2 S2]. cbn [ret]. split; [exact HI2|eapply stable_trans; eauto].
+Qed.
+
+(* ... and after it: the cursor *)
+Lemma flush_end_spec : forall fuel h,
+  hinv [] h -> findw h root <> None ->
+  hoare (fun h1 => h1 = h) (flush_end fuel root) (fun _ h' => hinv [] h' /\ stable h h').
+Proof.
+  intros fuel h3 HI3 Hl3 h0 E. subst h0. destruct (live_some h3 root Hl3) as [cr3 Hr3].
   assert (Hir3 : w_isroot cr3 = true) by (rewrite (hi_isroot [] h3 HI3 root cr3 Hr3); apply Pos.eqb_refl).
-  unfold bind at 1. rewrite (getr_run h3 root cr3 Hr3 Hir3).
-  (* the cursor *)
-  destruct (r_restore (rx h3)); [|cbn; split; [exact HI3|exact S03]].
+  unfold flush_end. unfold bind at 1. rewrite (getr_run h3 root cr3 Hr3 Hir3).
+  destruct (r_restore (rx h3)); [|cbn; split; [exact HI3|apply stable_refl]].
   unfold bind at 1. rewrite (setr_run h3 root cr3 _ Hr3 Hir3).
   destruct (rx_flags_hinv [] h3 (set_rrestore (rx h3) false) HI3 eq_refl eq_refl) as [HI4 S4].
   set (h4 := with_rx h3 (set_rrestore (rx h3) false)) in *.
   assert (Hl4 : findw h4 root <> None) by (apply (stable_live h3 h4 root S4); exact Hl3).
   pose proof (do_restore_ok fuel h4 HI4 Hl4) as Hdr.
   destruct (do_restore fuel root h4) as [u h5| |]; [|contradiction|exact I]. subst h5.
-  split; [exact HI4|eapply stable_trans; eauto].
+  split; [exact HI4|exact S4].
 Qed.
